@@ -2,6 +2,7 @@ package main
 
 import (
 	"fmt"
+	"sort"
 	"go/token"
 	"go/types"
 
@@ -23,12 +24,37 @@ func isFloat(t types.Type) bool {
 
 func (e *Enc) set(v ssa.Value, x *Val) { e.vals[v] = x }
 
+// allocRef: a new object. Its id lies above the allocation watermark of the current path (so it differs from every
+// object that exists at this point - pre-existing ones, earlier allocations, objects returned by earlier calls) and
+// below the id regions reserved for objects allocated inside callees.
 func (e *Enc) allocRef(st *State) string {
 	e.n++
 	k := e.declare(fmt.Sprintf("new!%d", e.n), "Int")
-	// fresh: larger than every object id that existed at entry and distinct from earlier allocations
-	e.assume(eq(k, app("+", "|alloc!0|", num(int64(e.n)))))
+	e.assume(and(app(">", k, e.watermark(st)), app("<", k, "(+ |alloc!0| 1000000000)")))
+	arrSorts["G|wm"] = "Int"
+	st.m["G|wm"] = k
 	return app("obj", k)
+}
+
+func (e *Enc) watermark(st *State) string {
+	if t, ok := st.m["G|wm"]; ok {
+		return t
+	}
+	return "|alloc!0|"
+}
+
+// existing: a reference that comes out of unknown code or out of the heap designates an object that exists now:
+// allocated before entry, by this path so far, or inside a callee (its own id region).
+func (e *Enc) existing(st *State, v *Val) {
+	wm := e.watermark(st)
+	for k, l := range leaves(v.typ) {
+		if l.sort != "Ref" || k >= len(v.c) {
+			continue
+		}
+		for _, r := range []string{v.c[k], owner(v.c[k]), owner(owner(v.c[k]))} {
+			e.assumeHere(fmt.Sprintf("(=> ((_ is obj) %s) (or (<= (oid %s) %s) (> (oid %s) (+ |alloc!0| 1000000000))))", r, r, wm, r))
+		}
+	}
 }
 
 func (e *Enc) instr(in ssa.Instruction, st *State) {
@@ -101,6 +127,42 @@ func (e *Enc) instr(in ssa.Instruction, st *State) {
 			if _, isFA := in.Addr.(*ssa.FieldAddr); !isFA {
 				if _, isIA := in.Addr.(*ssa.IndexAddr); !isIA {
 					e.oblige("nil", exprText(in.Addr), in.Pos(), not(eq(e.val(in.Addr).c[0], "null")))
+				}
+			}
+		}
+		if fa, ok := in.Addr.(*ssa.FieldAddr); ok && e.con != nil {
+			// store-site hooks: "store:pkg.Struct.field#n" (source order) for ghost reached flags and asserts on `value`
+			stt := fa.X.Type().Underlying().(*types.Pointer).Elem()
+			site := "store:" + structKey(stt) + "." + stt.Underlying().(*types.Struct).Field(fa.Field).Name()
+			ord := e.storeOrdinal(in, site)
+			key := fmt.Sprintf("%s#%d", site, ord)
+			if e.ghostSites[key] {
+				arrSorts["G|reached|"+key] = "Bool"
+				st.m["G|reached|"+key] = "true"
+			}
+			for _, a := range e.con.Asserts {
+				if a.Callee == site && (a.Ordinal == ord || a.Ordinal < 0) && e.active(a.C) {
+					vars := map[string]*Val{"value": e.val(in.Val), "target": e.val(fa.X)}
+					for k, v := range e.params {
+						vars[k] = v
+					}
+					env := &Env{e: e, st: st, old: &e.entry, vars: vars, at: in}
+					o := e.oblige("assert", fmt.Sprintf("@%s:%s", key, shorten(a.C.Src)), in.Pos(), env.formula(a.C.E))
+					o.Owned = true
+					o.Clause = a.C
+				}
+			}
+		}
+		if fa, ok := in.Addr.(*ssa.FieldAddr); ok && e.con != nil && rootAlloc(in.Addr) == nil {
+			stt := fa.X.Type().Underlying().(*types.Pointer).Elem()
+			for _, nw := range e.con.NoWrite {
+				if e.active(nw) && structKey(stt) == nw.Src {
+					// frame: this function must not modify objects of this type that it did not allocate itself
+					fld := stt.Underlying().(*types.Struct).Field(fa.Field).Name()
+					o := e.oblige("frame", "nowrite:"+nw.Src+"."+fld, in.Pos(), "false")
+					o.Owned = true
+					o.Clause = nw
+					e.cons = e.cons[:len(e.cons)-1]
 				}
 			}
 		}
@@ -263,6 +325,7 @@ func (e *Enc) unop(in *ssa.UnOp, st *State) {
 			out.c = append(out.c, t)
 		}
 		e.wellFormedVal(out)
+		e.existing(st, out)
 		e.set(in, out)
 		if g, ok := in.X.(*ssa.Global); ok {
 			e.closedFacts(g, out, st)
@@ -630,4 +693,30 @@ func (e *Enc) concat(a, b string) string {
 		e.assume(fmt.Sprintf("(forall ((i Int)) (! (= (sat %s i) (ite (< i (slen %s)) (sat %s i) (sat %s (- i (slen %s))))) :pattern ((sat %s i))))", r, a, a, b, a, r))
 	}
 	return r
+}
+
+// storeOrdinal numbers the stores to one struct field in source order.
+func (e *Enc) storeOrdinal(in *ssa.Store, site string) int {
+	if e.storeOrd == nil {
+		e.storeOrd = map[*ssa.Store]int{}
+		by := map[string][]*ssa.Store{}
+		for _, b := range e.fn.Blocks {
+			for _, ins := range b.Instrs {
+				if s, ok := ins.(*ssa.Store); ok {
+					if fa, ok := s.Addr.(*ssa.FieldAddr); ok {
+						stt := fa.X.Type().Underlying().(*types.Pointer).Elem()
+						n := "store:" + structKey(stt) + "." + stt.Underlying().(*types.Struct).Field(fa.Field).Name()
+						by[n] = append(by[n], s)
+					}
+				}
+			}
+		}
+		for _, ss := range by {
+			sort.SliceStable(ss, func(i, j int) bool { return ss[i].Pos() < ss[j].Pos() })
+			for i, s := range ss {
+				e.storeOrd[s] = i
+			}
+		}
+	}
+	return e.storeOrd[in]
 }
